@@ -40,7 +40,9 @@ MANIFEST = dict(
     design='DESIGN.md §5 C19',
     technique='Lean 4 theorems over an executable model of the sampling protocol + relation evaluated on real samples + differential correspondence through the real engine',
     note='Partial: pandas DataFrame.sample is treated relationally (its contract is monitored on every real sample); nested / cross-nested generated models '
-    'are only checked numerically for complete sampling (no Lean model of the MEV terms); IEEE rounding of log/exp is not modelled (tolerances stated).',
+    'are only checked numerically (nested logit, complete sampling of both samples, vs models.lognested; no Lean model of the MEV terms; cross-nested not exercised); '
+    'IEEE rounding of log/exp is not modelled (tolerances stated). One defect is listed as known finding F-C19-1 (rename_elementary renames a shared Variable object twice when '
+    'columns X and X_<i> exist; C19.shared_object_renamed_twice is the witness, the model is the repaired behaviour).',
 )
 TRUSTED = [
     'pandas: DataFrame.sample(n, replace=False) returns n distinct rows of the frame (monitored: picksOK on every real sample); concat/stack/apply primitives',
